@@ -82,6 +82,17 @@ def gen_case(seed, i):
         if "rf_under" in flags and nroots < flags["rf_under"]:
             flags["rf_under"] = nroots
     spell = [rng.choice(SPELLINGS) for _ in roots]
+    if flags["isolate"] and rng.random() < 0.3:
+        # FILES given as input paths of their own (each one is a root), two of them in one directory that is
+        # not below any directory root
+        fam0 = rng.randint(1, nfam)
+        n0 = [e["c"]["len"] for e in w.entries if e["t"] == "f" and e["c"].get("fam") == fam0][0]
+        for k in range(rng.choice([2, 2, 3])):
+            w.add_file("out/p%d" % k, {"fam": fam0, "len": n0, "flips": []})
+            at = rng.randint(0, len(roots))
+            roots = roots[:at] + ["out/p%d" % k] + roots[at:]
+            spell = spell[:at] + [rng.choice(["abs", "rel", "dot"])] + spell[at:]
+        spell = [("abs" if (h == "symlink") else h) for h in spell]
     if not flags["isolate"] and rng.random() < 0.25:
         # overlapping input paths: a sub-directory of a root (through the root's symlink in a third of the
         # draws) or the root once more, before, between or after the others - every path below is reached twice
